@@ -217,6 +217,9 @@ func (p *File) newImport(name, pkgPath string) *ast.Ident {
 		id = &ast.Ident{Name: name, Obj: &ast.Object{Data: importUsed(false)}}
 		p.imps[pkgPath] = id
 		p.dirty = true
+	} else if !bool(id.Obj.Data.(importUsed)) {
+		// referenced again after a write that found it unused: mark again at the next write
+		p.dirty = true
 	}
 	return id
 }
